@@ -33,6 +33,74 @@ func TestC12(t *testing.T) {
 	rapid.Check(t, runC12)
 }
 
+// TestC12Race runs under the race detector: documents large enough (thousands
+// of rows, several enum columns with declared values) for an implementation to
+// be tempted to convert columns in parallel. ReadCSV may use goroutines of its
+// own only if the result stays a function of the bytes: any report of the
+// detector, and any difference between two deliveries of the same document,
+// is a violation.
+func TestC12Race(t *testing.T) {
+	rapid.Check(t, func(t *rapid.T) {
+		nrows := rapid.IntRange(4096, 17000).Draw(t, "rows")
+		ncols := rapid.IntRange(4, 6).Draw(t, "cols")
+		r := core.NewSplitMix(rapid.Uint64().Draw(t, "key"))
+		vals := []string{"a", "b", "c d", "e\"f", ""}
+		typs := map[string]string{}
+		enums := map[string][]string{}
+		var sb []byte
+		for c := 0; c < ncols; c++ {
+			name := "c" + strconv.Itoa(c)
+			if c > 0 {
+				sb = append(sb, ',')
+			}
+			sb = append(sb, name...)
+			if c%3 != 2 {
+				typs[name] = "enum"
+				enums[name] = vals
+			}
+		}
+		sb = append(sb, '\n')
+		for i := 0; i < nrows; i++ {
+			for c := 0; c < ncols; c++ {
+				if c > 0 {
+					sb = append(sb, ',')
+				}
+				if c%3 == 2 {
+					sb = strconv.AppendInt(sb, int64(r.Intn(1000)), 10)
+				} else {
+					v := vals[r.Intn(len(vals))]
+					sb = append(sb, '"')
+					sb = append(sb, strings.ReplaceAll(v, "\"", "\"\"")...)
+					sb = append(sb, '"')
+				}
+			}
+			sb = append(sb, '\n')
+		}
+		core.Eval()
+		core.Probe("large-typed-documents")
+		read := func(sizes []int) *obs.Frame {
+			ev := map[string][]string{}
+			for k, v := range enums {
+				ev[k] = v
+			}
+			rd := &simio.SimReader{Doc: sb, Plan: simio.ReadPlan{Sizes: sizes}}
+			return obs.Of(qframe.ReadCSV(rd, csv.Types(typs), csv.EnumValues(ev)))
+		}
+		a := read(nil)
+		b := read([]int{4096, 1, 977})
+		core.Steps(2)
+		core.Nontrivial(core.Hash64(sb))
+		core.Sample(map[string]interface{}{"rows": nrows, "cols": ncols, "enum_columns": len(typs), "bytes": len(sb)})
+		if a.HasErr || a.Len != nrows {
+			core.Violation(t, "C12:R2:large-typed-document", fmt.Sprintf("a %d-row document with declared enum columns gave Len=%d Err=%q", nrows, a.Len, a.Err), map[string]interface{}{"rows": nrows, "cols": ncols})
+			return
+		}
+		if d := obs.Diff(a, b); d != "" {
+			core.Violation(t, "C12:R1:fragmentation-dependent", "two deliveries of the same large document differ: "+d, map[string]interface{}{"rows": nrows, "cols": ncols})
+		}
+	})
+}
+
 type plan struct {
 	// ReaderKind: 0 plain io.Reader, 1 also io.WriterTo, 2 also io.ByteReader
 	ReaderKind int            `json:"reader_kind"`
